@@ -18,7 +18,7 @@ SPEC = {
              rule="fixed regression set only (no region is established clean for whole-program idempotence): generator in plain mode under a constant seed and the repository's test inputs, each under 3 configurations; second pass byte-compared",
              corr="format(format(p)) = format(p) byte for byte; failures are compared with the per-input list baselines/C06.json"),
  "C10": dict(judge="c10", flags_a=["--trace"], flags_b=["--trace", "--skip-directives"], mode_a="plain-nodirectives", mode_b="wild-nodirectives", dirs=[d for d in CORPUS_DIRS if d != "tests/inputs-ignore"],
-             rule="same generator and configurations as C01 without ignore directives and ranges (their text is excluded by the property); CRLF, LF and mixed inputs; both regions are clean, region B has no listed input",
+             rule="same generator and configurations as C01 without ignore directives and ranges (their text is excluded by the property); CRLF, LF and mixed inputs; region A is clean, region B's failures (comments between two tokens of a statement) are listed per input",
              corr="Census.ws_check on the Coq lexer's tokens of the output: every newline of whitespace and block comments in the configured form, no other CR, indentation tabs-only or spaces in a multiple of indent_width, one final line ending"),
  "C11": dict(judge="c11", flags_a=["--calls"], flags_b=["--calls", "--skip-directives"], mode_a="plain-nodirectives", mode_b="wild-nodirectives", dirs=[d for d in CORPUS_DIRS if d != "tests/inputs-ignore"],
              rule="same generator and configurations as C01 without ignore directives",
